@@ -218,7 +218,7 @@ def run_case(case) -> Result:
 
 
 def shards(tier):
-    k = 10 if tier == "quick" else 200
+    k = 20 if tier == "quick" else 200
     lengths = LENGTHS[tier]
     out = []
     for s in gc.SUBJECTS:
